@@ -48,6 +48,10 @@ def cases(seed, tier):
                 c['family'] = rng.choice([4, 4, 6])
             else:
                 p['pre'] = rng.choice([[], [], ['Welcome to sim'], ['line one', 'line two']])
+            if i % 97 == 5:
+                # one very long list (about 60 KiB of names): the KEXINIT spans dozens of segments and recv() calls
+                cat = rng.choice(CATS)
+                p[cat] = p[cat] + ['n%04d-' % j + 'x' * rng.choice([40, 180]) + '@example.com' for j in range(rng.choice([60, 300]))]
             c['profile'] = p
         yield c
 
